@@ -857,3 +857,12 @@ HARMLESS += [
     # only been "caught" by a brittle instantiation): re-allocating the file to the same length before every blob keeps its content
     dict(id="H-C14-write-no-alloc-reset", prop="C14", file=RSF, old="                                    dest.set_length(path, filesize).unwrap();\n                                    sizes_guard[file_idx] = 0;\n", new="                                    dest.set_length(path, filesize).unwrap();\n"),
 ]
+
+MUTATIONS += [
+    # the cache's temporary file is opened without truncation: a longer left-over temporary file leaves its tail in the entry
+    dict(id="C19-cache-tmp-not-truncated", prop="C19", file=CA13, old="                .create(true)\n                .truncate(true)\n                .write(true)\n                .open(filename)\n                .map_err(|err| {\n                    RusticError::with_source(\n                        ErrorKind::InputOutput,\n                        \"Failed to open the file `{path}`.\",", new="                .create(true)\n                .write(true)\n                .open(filename)\n                .map_err(|err| {\n                    RusticError::with_source(\n                        ErrorKind::InputOutput,\n                        \"Failed to open the file `{path}`.\","),
+]
+HARMLESS += [
+    # the directory backend's temporary file opened without O_TRUNC: harmless THERE, because set_len(length) cuts it to the content's length before the copy
+    dict(id="H-C20-local-tmp-not-truncated", prop="C20", file=LB13, old="                .create(true)\n                .truncate(true)\n                .write(true)", new="                .create(true)\n                .write(true)"),
+]
